@@ -213,8 +213,20 @@ def sc3(F, R):
         sep = strip_load(it[3][0]) if it[0] == "iter" and it[2] == "split" and len(it) > 3 else None
         srcok = it[0] == "iter" and it[2] == "split" and mentions(it[1], lambda x: x[0] == "field" and x[2] == "Script::txt")
         badads = [a for a in ads if a not in ("map", "filter")]
+        # comments are stripped from the whole text before it is cut at ';' (a comment may contain ';')
+        stripped_first = mentions(it[1], lambda x: x[0] == "call" and x[1].split("::")[-1] in ("replace_all", "replace", "replacen"))
+        strips_later = False
+        for an, ex in iter_adaptors(chain):
+            for x in ex:
+                cbx = F.bodies.get(strip_load(x)[1]) if strip_load(x)[0] == "closure" else None
+                if cbx is not None and any(t["callee"].get("name") in ("replace_all", "replace") for _, t in cbx.calls()):
+                    strips_later = True
         if not srcok or sep != ("const", ord(";")):
             R.bad("SC3", "SC3/Script::commands/split", cb.where(), "commands are not the pieces of the script text between ';'", {"chain": show(chain, cb)[:300]})
+        elif strips_later and not stripped_first:
+            R.bad("SC3", "SC3/Script::commands/split-before-comment-strip", cb.where(),
+                  "the text is cut at ';' before comments are removed: a ';' inside a comment splits the comment, and the rest of it is "
+                  "taken for a command (a well-formed script then fails half-way)")
         elif badads:
             R.bad("SC3", "SC3/Script::commands/order", cb.where(), "the command list passes through %s: textual order or the set of commands is not preserved" % badads)
         else:
